@@ -6557,7 +6557,7 @@ let fline0 =
 (** val fl_request : fline -> bool **)
 
 let fl_request s =
-  N.eqb s.fl_status N0
+  (&&) (N.eqb s.fl_status N0) (pf_empty s.fl_statuscode)
 
 (** val fl_parsed : fline -> bool **)
 
